@@ -53,7 +53,7 @@ IntOp(op, oa, ob) ==
          [] op = "%" -> IF I64!IsZero(b) THEN ErrRes("DIVIDE_BY_ZERO") ELSE IntRes(I64!Mod(a, b))
          [] op \in {"**", "power"} ->
               IF I64!IsNeg(b) THEN [t |-> "unpinned"]
-              ELSE IF I64!FitsSmall(b) THEN IntRes(I64!PowU(a, I64!ToInt(b))) ELSE [t |-> "unpinned"]
+              ELSE IntRes(I64!PowL(a, b))
          [] op = "&" -> IntRes(I64!And(a, b))
          [] op = "|" -> IntRes(I64!Or(a, b))
          [] op = "^" -> IntRes(I64!Xor(a, b))
